@@ -363,6 +363,21 @@ Theorem C09_memo_forward_refuted :
 Proof. exact memo_forward_refuted. Qed.
 Print Assumptions C09_memo_forward_refuted.
 
+(* ... and a forwarding node must not keep its own verdict about an id: the variant that refuses ids in the node's closed-tunnel
+   tracker (an earlier life of the id was forwarded here and ended) leaves a re-registered, waiting id unroutable on exactly
+   that node, while forward_now (the routing table is the authority) and every other node dial it *)
+Theorem C09_closed_tracker_guard_refuted :
+  let c := cfg_hybrid true 30000000000 in
+  let s := ex_final c (init ex_gstr) [ORegAddr 0 ex_nodeid ex_addr1; ORegister 0 ex_rec; OLookup 1 (w_tunnel ex_rec);
+                                      ORemove 0 (w_tunnel ex_rec); OTick 1000 1000; ORegister 0 ex_rec] in
+  let closed : nat -> str -> bool := fun n t => Nat.eqb n 1 && list_eqb t (w_tunnel ex_rec) in
+  ex_forward_now c s 1 (w_tunnel ex_rec) = FDial ex_nodeid ex_addr1
+  /\ forward_with_closed_guard ex_gstr ex_enc ex_dec ex_dec ex_of_addr ex_to_addr ex_keep closed c s 1 (w_tunnel ex_rec) = FNoRoute
+  /\ forward_with_closed_guard ex_gstr ex_enc ex_dec ex_dec ex_of_addr ex_to_addr ex_keep closed c s 2 (w_tunnel ex_rec)
+     = FDial ex_nodeid ex_addr1.
+Proof. exact closed_tracker_guard_refuted. Qed.
+Print Assumptions C09_closed_tracker_guard_refuted.
+
 (* (5) single-call failures of the shared tier (Redis down for one command), at EVERY storage call position.
    A failed call is reported to the caller and writes nothing anywhere (only RemoveWaitingTunnel swallows its failed Delete): *)
 Theorem C09_fault_reported_nothing_diverted :
